@@ -503,6 +503,42 @@ def c14_with_tags(form: int, q: int, v: int) -> bool:
   return _check_set(cfg, before, TAGS[q], v + 7)
 
 
+
+def _two(x=None, y=None):
+  return sigs.Rec('two', (x, y), (), (), {})
+
+
+def c14_diff_callable(site: int, q: int, setz: bool, v: int) -> bool:
+  """
+  A diff that changes a node's callable and tags an argument (site 0: x, known to both callables; 1: z, a parameter of
+  the new callable only; 2: both) applies, and the patched configuration carries exactly the tags of `new` (C14-m8).
+  require: 0 <= site <= 2 and 0 <= q <= 3
+  """
+  site, q, setz = _concs(site, 0, 2), _concs(q, 0, 3), bool(setz)
+  child = fdl.Config(_two, x=1, y=v)
+  old = fdl.Config(fam.g1, x=child, y=[child])
+  nchild = fdl.Config(fam.g3, x=1, y=v)
+  if setz:
+    nchild.z = v + 1
+  if site in (0, 2):
+    fdl.add_tag(nchild, 'x', TAGS[q])
+  if site in (1, 2):
+    fdl.add_tag(nchild, 'z', TAGS[q])
+    fdl.add_tag(nchild, 'z', U)
+  new = fdl.Config(fam.g1, x=nchild, y=[nchild])
+  note('c14dc', site, q, setz)
+  diff = diffing.build_diff(old, new)
+  patched = copy.deepcopy(old)
+  diffing.apply_diff(diff, patched)
+  pc = patched.x
+  for k in ('x', 'y', 'z'):
+    if fdl.get_tags(pc, k) != fdl.get_tags(nchild, k):
+      return False
+  if tagging.list_tags(patched) != tagging.list_tags(new):
+    return False
+  return canon(patched) == canon(new) and patched == new
+
+
 def obligations(tier, seed):
   assert _json_stub_ok(), 'jsonify stub disagrees with json.dumps/json.loads'
   cubes = []
@@ -549,6 +585,9 @@ def obligations(tier, seed):
                  extra_smokes=[dict(ctor=c, g=5, q=1, tr=c + 1, v=4) for c in range(4)] + [dict(ctor=0, g=4, q=0, tr=5, v=4)]),
       Obligation('c14_with_tags', c14_with_tags, [Cube(f'f{f}', [], dict(form=f)) for f in range(6)], timeout=120, path_timeout=40,
                  smoke=dict(form=3, q=3, v=4), extra_smokes=[dict(form=f, q=f % 4, v=4) for f in range(6)]),
+      Obligation('c14_diff_callable', c14_diff_callable, [Cube(f's{x}_z{int(z)}', [], dict(site=x, setz=z)) for x in range(3) for z in (False, True)],
+                 timeout=120, path_timeout=40, smoke=dict(site=1, q=1, setz=False, v=4),
+                 extra_smokes=[dict(site=2, q=3, setz=True, v=4), dict(site=0, q=0, setz=False, v=4)]),
       Obligation('c14_diff_positional', c14_diff_positional, [Cube(f's{s}', [], dict(site=s)) for s in (0, 1)],
                  timeout=60, path_timeout=40, smoke=None),
   ]
